@@ -12,6 +12,11 @@ POS_HOOKS = ('on_open_position', 'on_increased_position', 'on_reduced_position',
 
 class C06(core.Check):
     pid = 'C06'
+    unproved = [
+        'hook reporting (exactly one matching hook per fill) and trade open/close times: engine correspondence + trade-log oracle',
+        'several symbols in one world',
+        'spot trade records (base-asset fee): correspondence + oracle',
+    ]
     gen_keys = ['jesse/helpers.py:estimate_PNL', 'jesse/helpers.py:estimate_average_price']
     rule = ('correspondence: whole sessions (multi-point entries, partial take-profits, stops moved after reductions, '
             'liquidate(), flips, open position at session end; spot and futures, both simulators) on the real engine and on '
@@ -35,7 +40,7 @@ class C06(core.Check):
     def correspondence(self, res, boost):
         jesse_env.setup()
         rng = random.Random(self.seed * 7919 + 6)
-        engcorr.compare_sessions(res, self.sessions(self.budget(40, 700, boost), rng))
+        engcorr.compare_sessions(res, self.sessions(self.budget(100, 700, boost), rng))
 
     def analyse(self, sess, cands, ev, tr):
         """returns (list of problems, flags)"""
@@ -172,7 +177,7 @@ class C06(core.Check):
                 w['routes'] = [tuple(x) for x in w['routes']]
                 w['droutes'] = [tuple(x) for x in w['droutes']]
                 witnesses.append(w)
-        for sess in witnesses + self.sessions(self.budget(80, 1500, boost), rng):
+        for sess in witnesses + self.sessions(self.budget(200, 1500, boost), rng):
             cands = engcorr.candles_of(sess)
             ev, tr, err = engcorr.run_real(sess, cands)
             res.count('sessions:' + ('fast' if sess['fast'] else 'step') + ':' + sess['kind'])
